@@ -3,14 +3,15 @@
 Model: lean/PV/Model/RunLoop.lean (Transport.run dispatch); tables regenerated from the source into
 lean/PV/Generated/C12.lean; theorems lean/PV/Props/C12.lean; driver lean/Driver/C12.lean.
 Correspondence: every type 0..255 that the *real* tables leave unhandled, in four role/class/auth-handler
-situations, random payloads, sent by an authenticated real peer over tests._loop.LoopSocket; plus the other
+situations, random payloads, sent by an authenticated real peer over tests._loop.LoopSocket — and again, in both
+roles, inside the window of a re-exchange (own KEXINIT out, peer's reader held back); plus the other
 branches of the loop body (IGNORE, DEBUG, DISCONNECT, dead/unknown channel ids, unsolicited NEWKEYS, batches).
 Oracle (model-independent): the peer receives exactly one UNIMPLEMENTED carrying the sequence number its
 own packetizer used for the packet (none for type 3), the subject's outbound counter moved by exactly that
 one reply, the subject is still active and still answers a round trip, and a channel can still be used.
 """
 from pv import lib_runloop as L
-from pv.core import exc_site, hx
+from pv.core import InfraError, exc_site, hx
 
 SITUATIONS = [  # (subject role, class, authenticate)
     ("server", "Transport", True),
@@ -56,13 +57,82 @@ def observe(pair, si0, so0, extra_in):
     return (1 if (alive and sub.is_active()) else 0, err, si, so, [(3, a) for a in pair.unimpl])
 
 
+def rekey_window(ctx, role, cls, rng, tables, cases):
+    """Every unhandled type while the subject's own KEXINIT of a re-exchange is out and the peer's has not
+    arrived: the peer's reader is held back, the subject starts the exchange, the peer (which has seen nothing
+    yet) sends the packets, then the link is released and the exchange completes."""
+    from tests._loop import LoopSocket
+
+    sit_name = "%s/%s/auth/in-rekey" % (role, cls)
+    gate, other = L.gate_socket(), LoopSocket()
+    gate.link(other)
+    socks = (gate, other) if role == "server" else (other, gate)      # (client socket, server socket)
+    pair = L.Pair(role, cls, True, socks=socks)
+    try:
+        sub, peer = pair.subject, pair.peer
+        L.swallow_unimplemented(peer, pair.unimpl)
+        sit = pair.situation()
+        unhandled = [t for t in range(256) if t not in pair.handled_types()]
+        if not pair.barrier():
+            raise InfraError("session not usable before the re-exchange")
+        pair.unimpl.clear()
+        gate.gate.clear()                       # the peer reads nothing from now on
+        sub._send_kex_init()                    # what renegotiate_keys() does: in_kex, KEXINIT on the wire
+        si0, so0 = L.seq_in(sub), L.seq_out(sub)
+        sent = []
+        for t in unhandled:
+            p = gen_payload(rng, False)
+            sent.append((t, p, L.seq_out(peer)))
+            peer._send_message(L.msg(t, ("raw", p)))
+        L.wait_until(lambda: L.seq_in(sub) >= si0 + len(sent) or not sub.is_alive(), 60,
+                     "the subject to read the injected packets")
+        in_kex_during = bool(sub.in_kex)
+        gate.gate.set()
+        L.wait_until(lambda: (not sub.is_alive() or not peer.is_alive()) or (
+            not sub.in_kex and sub.clear_to_send.is_set() and peer.clear_to_send.is_set()
+            and not peer.in_kex), 60, "the re-exchange to complete")
+        alive = sub.is_alive() and peer.is_alive() and pair.barrier()
+        got = list(pair.unimpl)
+        want = [s for t, _p, s in sent if t != 3]
+        case = {"situation": sit_name, "what": "unhandled-types-during-rekey", "types": len(sent),
+                "in_kex_while_dispatching": in_kex_during}
+        ctx.dist("situation:" + sit_name)
+        for t, p, s in sent:
+            ctx.case((sit_name, t, p), True)
+            ctx.dist("type-class:in-rekey")
+        ctx.sample(dict(case, first=[[t, hx(p[:16]), s] for t, p, s in sent[:3]]))
+        if not in_kex_during:
+            ctx.broken.append({"kind": "harness", "what": "rekey window", "detail": "subject left in_kex early"})
+        if not alive or not sub.is_active():
+            e = L.root_exc(sub.saved_exception) if sub.saved_exception is not None else None
+            ctx.fail("unhandled-type-during-rekey-kills-session:" + (exc_site(e) if e is not None else "loop-left"),
+                     case, "subject %r peer %r" % (sub.saved_exception, peer.saved_exception))
+        if got != want:
+            missing = [s for s in want if s not in got]
+            ctx.fail("wrong-unimplemented-reply:during-rekey", dict(case, missing_replies=missing[:5]),
+                     "peer received %d UNIMPLEMENTED (%r…), expected %d (%r…)" % (len(got), got[:4], len(want), want[:4]))
+        # correspondence, packet by packet (state threads through the counters only)
+        st = "%(server)d %(srt)d %(authH)s %(authed)d - -" % sit
+        a, b = si0, so0
+        gi = iter(got)
+        for t, p, s in sent:
+            exp = [] if t == 3 else [(3, s)]
+            cases.append(("step %s %d %d %d %s 1" % (st, a, b, t, hx(p)),
+                          (1, "-", a + 1, b + len(exp), exp if got == want else ([] if t == 3 else "see-oracle")),
+                          dict(case, element=[t, len(p)]), None))
+            a, b = a + 1, b + len(exp)
+    finally:
+        pair.close()
+
+
 def run(ctx):
     L.quiet_logging()
     L.stub_gss()
     rng = ctx.rng
     ctx.rule = ("exhaustive: every type number 0..255 for which the live tables of the subject transport have no "
                 "handler, in 4 situations (server/client x Transport/ServiceRequestingTransport, auth handler "
-                "std/only), each with a fresh random payload (0..3000 bytes; thorough: 3 payloads, up to "
+                "std/only) and, for both roles, once more while a re-exchange started by the subject is in flight "
+                "(own KEXINIT sent, peer's not yet processed), each with a fresh random payload (0..3000 bytes; thorough: 3 payloads, up to "
                 "20000), sent by a real authenticated peer; plus batches of 3..20 unhandled packets without a "
                 "barrier in between and the other loop branches (IGNORE, DEBUG, DISCONNECT, dead/unknown channel, "
                 "unsolicited NEWKEYS). distinct = (situation, type, payload); non-trivial = type unhandled")
@@ -129,7 +199,7 @@ def run(ctx):
                     ctx.dist("payload:" + ("empty" if not p else "<12" if len(p) < 12 else "<300" if len(p) < 300 else "big"))
                     if t in (3, 62, 200) and role == "server":
                         ctx.sample(case)
-                    cases.append(("step %s %d %d %d %s" % (st, si0, so0, t, hx(p)), obs, case, None))
+                    cases.append(("step %s %d %d %d %s 0" % (st, si0, so0, t, hx(p)), obs, case, None))
                     # ---- oracle: the property itself, on the real code
                     want = [] if t == 3 else [(3, seqs[0])]
                     active, err, si, so, got = obs
@@ -170,7 +240,7 @@ def run(ctx):
                 # model: fold the batch through `step` requests (state threads through seq counters only)
                 a, b = si0, so0
                 for (t, p), s in zip(tp, seqs):
-                    cases.append(("step %s %d %d %d %s" % (st, a, b, t, hx(p)),
+                    cases.append(("step %s %d %d %d %s 0" % (st, a, b, t, hx(p)),
                                   (1, "-", a + 1, b + (0 if t == 3 else 1), [] if t == 3 else [(3, s)]),
                                   dict(case, what="batch-element", element=[t, len(p)]), None))
                     a, b = a + 1, b + (0 if t == 3 else 1)
@@ -196,7 +266,7 @@ def run(ctx):
                     if pair.barrier():
                         st, si0, so0, obs, case, seqs = one([(94, cid_at_subject.to_bytes(4, "big") + b"\0\0\0\1x")],
                                                             "dead-channel")
-                        cases.append(("step %s %d %d %d %s" % (st, si0, so0, 94, hx(cid_at_subject.to_bytes(4, "big") + b"\0\0\0\1x")),
+                        cases.append(("step %s %d %d %d %s 0" % (st, si0, so0, 94, hx(cid_at_subject.to_bytes(4, "big") + b"\0\0\0\1x")),
                                       obs, case, None))
                         ctx.case((sit_name, "dead-channel"), False)
                 except Exception as e:  # real code misbehaving after the unknown packets
@@ -216,12 +286,15 @@ def run(ctx):
                 st, si0, so0, obs, case, seqs = one([(t, p)], what)
                 ctx.case((sit_name, what, p), False)
                 ctx.dist("branch:" + what)
-                cases.append(("step %s %d %d %d %s" % (st, si0, so0, t, hx(p)), obs, case, None))
+                cases.append(("step %s %d %d %d %s 0" % (st, si0, so0, t, hx(p)), obs, case, None))
                 if not obs[0]:
                     fresh()
                     sit = pair.situation()
         finally:
             pair.close()
+
+    for role in ("server", "client"):
+        rekey_window(ctx, role, "Transport", rng, tables, cases)
 
     ctx.exhaustive = True
     replies = ctx.driver("C12", [c[0] for c in cases])
